@@ -211,7 +211,9 @@ func encodeFuncFor(ty reflect.Type) func(*Encoder, int, reflect.Value) {
 	if f, ok := encodeFuncsCache.Load(ty); ok {
 		return f.(func(*Encoder, int, reflect.Value))
 	}
+	vp("enc.miss", ty)
 	f := encodeFunc(ty)
+	vp("enc.store", ty)
 	encodeFuncsCache.Store(ty, f)
 	return f
 }
